@@ -189,7 +189,18 @@ pub fn c07_extend<const N: usize, const L: usize>() {
     finish_set(s);
 }
 
-/// Extend<&T> on a Copy element type
+/// iterator over references that counts how often it is pulled
+pub struct RefSrc<'a, const L: usize> { pub items: &'a [u8; L], pub pos: usize, pub len: usize, pub pulled: usize }
+impl<'a, const L: usize> Iterator for RefSrc<'a, L> {
+    type Item = &'a u8;
+    fn next(&mut self) -> Option<&'a u8> {
+        self.pulled += 1;
+        if self.pos < self.len && self.pos < L { let i = self.pos; self.pos += 1; Some(&self.items[i]) } else { None }
+    }
+}
+
+/// Extend<&T> on a Copy element type: equals inserting the items one by one, in order -- including the panic when an item
+/// does not fit (the source is consumed front to back up to that item, never abandoned silently)
 pub fn c07_extend_ref<const N: usize, const L: usize>() {
     let mut s: Set<u8, N> = empty_set();
     let mut md = Model::<N>::new();
@@ -206,10 +217,25 @@ pub fn c07_extend_ref<const N: usize, const L: usize>() {
     let mut items = [0u8; L];
     let mut i = 0;
     while i < L { items[i] = vf::any_u8(); i += 1; }
+    // what one-by-one insertion does: stops with a panic at the first item that does not fit
+    let mut overflow_at = usize::MAX;
     let mut i = 0;
-    while i < L { if i < len { vf::assume(md.n < N || md.has(items[i])); md.insert(items[i], 0, 0, 0); } i += 1; }
-    s.extend(items[..len].iter());
-    if len > 0 { vf::reach(1); } else { vf::reach(2); }
+    while i < L {
+        if i < len && overflow_at == usize::MAX { if md.n == N && !md.has(items[i]) { overflow_at = i; } else { md.insert(items[i], 0, 0, 0); } }
+        i += 1;
+    }
+    if !vf::CAN_CATCH { vf::assume(overflow_at == usize::MAX); }
+    let mut src = RefSrc::<L> { items: &items, pos: 0, len, pulled: 0 };
+    let panicked = { let (ss, it) = (&mut s, &mut src); vf::catch(move || { ss.extend(it); }) };
+    if overflow_at == usize::MAX {
+        vf::reach(1);
+        vf::check(!panicked, 708);
+        vf::check(src.pulled == len || src.pulled == len + 1, 708);
+    } else {
+        vf::reach(2);
+        vf::check(panicked, 708);
+        vf::check(src.pulled <= overflow_at + 1, 708);
+    }
     vf::check(s.len() == md.n, 201);
     let q = vf::any_u8();
     vf::check(s.contains(&q) == md.has(q), 204);
